@@ -294,6 +294,10 @@ pub fn run(rep: &Report) {
 }
 
 /// `kestrel encrypt` then `kestrel decrypt` through files and pipes, into fresh and into pre-existing (longer) output paths
+thread_local! {
+    static FIFO_FEEDERS: std::cell::RefCell<Vec<std::thread::JoinHandle<()>>> = const { std::cell::RefCell::new(vec![]) };
+}
+
 fn cli_roundtrips(rep: &Report) {
     use crate::fx::Party;
     use crate::proc::{self, Cmd, Scratch};
@@ -307,22 +311,31 @@ fn cli_roundtrips(rep: &Report) {
     let mut jobs = vec![];
     for l in [0usize, 1, 1000, cs, cs + 1] {
         for (s, r) in [(0usize, 1usize), (1, 0), (0, 0)] {
-            for pipes in [false, true] {
+            // wiring 0: FILE arguments and -o; 1: stdin/stdout pipes; 2: the FILE argument is a named pipe (FIFO), -o files
+            for wiring in 0..3u8 {
                 for preexisting in [false, true] {
-                    jobs.push((l, s, r, pipes, preexisting));
+                    if wiring == 2 && (preexisting || (s, r) != (0, 1)) {
+                        continue;
+                    }
+                    jobs.push((l, s, r, wiring, preexisting));
                 }
             }
         }
     }
     let parties = [&alice, &bob];
-    jobs.par_iter().for_each(|&(l, s, r, pipes, preexisting)| {
+    jobs.par_iter().for_each(|&(l, s, r, wiring, preexisting)| {
+        let pipes = wiring == 1;
+        let fifo = wiring == 2;
         rep.eval(1);
-        rep.nontrivial(format!("cli-rt-{}-{}-{}-{}-{}", l, s, r, pipes, preexisting).as_bytes());
+        rep.nontrivial(format!("cli-rt-{}-{}-{}-{}-{}", l, s, r, wiring, preexisting).as_bytes());
         let p = plaintext(seed ^ 0x5c ^ l as u64, l);
         let attempt = || -> Result<(), String> {
             let sc = Scratch::new();
             sc.write("kr.txt", kr.as_bytes());
-            sc.write("plain.bin", &p);
+            let feeder = if fifo { Some(proc::feed_fifo(sc.path("plain.bin"), p.clone())?) } else { None };
+            if !fifo {
+                sc.write("plain.bin", &p);
+            }
             if preexisting {
                 sc.write("ct.ktl", &vec![b'O'; 300_000]);
                 sc.write("back.bin", &vec![b'O'; 300_000]);
@@ -342,7 +355,17 @@ fn cli_roundtrips(rep: &Report) {
                 if !o.ok() {
                     return Err(format!("kestrel encrypt (files) failed: {}", o.summary()));
                 }
-                sc.read("ct.ktl").ok_or("no ciphertext file")?
+                if let Some(f) = feeder {
+                    let _ = f.join();
+                }
+                let ct = sc.read("ct.ktl").ok_or("no ciphertext file")?;
+                if fifo {
+                    // the ciphertext travels through a named pipe too
+                    let _ = std::fs::remove_file(sc.path("ct.ktl"));
+                    let f2 = proc::feed_fifo(sc.path("ct.ktl"), ct.clone())?;
+                    FIFO_FEEDERS.with(|v| v.borrow_mut().push(f2));
+                }
+                ct
             };
             // decrypt
             let (back, stderr) = if pipes {
@@ -358,10 +381,15 @@ fn cli_roundtrips(rep: &Report) {
                 if !o.ok() {
                     return Err(format!("kestrel decrypt (files{}) of the file just produced failed: {}", if preexisting { ", output paths existed before" } else { "" }, o.summary()));
                 }
+                FIFO_FEEDERS.with(|v| {
+                    for f in v.borrow_mut().drain(..) {
+                        let _ = f.join();
+                    }
+                });
                 (sc.read("back.bin").ok_or("no plaintext file")?, o.stderr)
             };
             if back != p {
-                return Err(format!("CLI round trip of {} bytes ({}{}) returns {} bytes that differ from the original", l, if pipes { "pipes" } else { "files" }, if preexisting { ", output paths held longer files before" } else { "" }, back.len()));
+                return Err(format!("CLI round trip of {} bytes ({}{}) returns {} bytes that differ from the original", l, if pipes { "pipes" } else if fifo { "FILE arguments are named pipes" } else { "files" }, if preexisting { ", output paths held longer files before" } else { "" }, back.len()));
             }
             if !stderr.split(|c: char| !(c.is_alphanumeric() || c == '-' || c == '_')).any(|t| t == snd.name) {
                 return Err(format!("decryption does not report sender '{}': {:?}", snd.name, stderr));
